@@ -324,6 +324,12 @@ fn exec_op(ctx: &mut Ctx, tok: &str) -> String {
             ctx.dmd.step();
             "ok".into()
         }
+        "rn" => {
+            // rn:<n>  Dmd::run(n): the clock advances once, then n instructions
+            step_clock(ctx);
+            ctx.dmd.run(a(1) as usize);
+            "ok".into()
+        }
         "run" => {
             let n = a(1);
             for _ in 0..n {
